@@ -10,7 +10,8 @@
    Each component theorem COMPOSES the reader-side meaning (C06 CfaSpec, C07 OpDec, C08 ListSpec, C03 Attr) with
    the writer-side read-back theorems (C14 CfaEncSpec / CfiWr, C15 OpEncSpec / OpWr, C16 ListWrSpec, C11 UnitWr):
    Err is always allowed, a silently different meaning never.
-   Not theorems here: ConvertLineProgram (two known findings, oracle streams c12.line / c12.vliw), whole-unit
+   ConvertLineProgram: section (5) — per-call / per-instruction theorems over Model/ConvertLine.v; whole programs stay
+   with the oracle streams c12.line / c12.vliw (two known findings). Not theorems here: whole-unit
    conversion (entry ids, string tables; oracle stream c12.corpus), normal form of expressions (oracle). *)
 From Coq Require Import List NArith ZArith Bool Sorted.
 From Coq.Strings Require Import Byte.
@@ -548,6 +549,210 @@ Example attr_convert_ex :
   conv_attr 5 [] ex_acvt ex_uaddr Attr.DW_FORM_ref4 73 (FormSpec.VUnitRef 12) = Ok None.
 Proof. vm_compute. repeat split. Qed.
 
+(* ============================================================== (5) ConvertLineProgram (line programs)
+   Model/ConvertLine.v mirrors write::line::convert (new, convert_file, read_row, read_sequence, convert) over the
+   line READER model of C04 (Model/LineRd.v) and the line WRITER model of C13 (Model/LineWr.v); it is tied to gimli
+   by stream c12.lineconv. Names below are qualified: CL = Model/ConvertLine, CLP = Proofs/ConvertLineProofs.
+
+   FULL statement aimed at (line_convert_sound):  convert p = Ok p' and not KnownClass p ->
+       rows (read (write p')) = rows p, sequence by sequence (addresses = sequence base + address_offset).
+   PROVED here: the per-call and per-instruction halves of it —
+     line_convert_error_or_exact   the address offset and every row register are copied verbatim, the file register
+                                   is mapped through the FileId table, or the call returns the specific error
+                                   (unaligned offset -> UnsupportedLineInstruction, never a truncated offset);
+     line_convert_offset_exact     every instruction except DW_LNE_set_address acts on the converter's private row
+                                   (address = offset from the sequence base) exactly as the reader executes it on
+                                   the real row: offset' = address' - base; a reader success is a converter success;
+     line_convert_set_address_*    DW_LNE_set_address at offset 0 keeps the private row at 0 (so base := operand is
+                                   exact); after the row has advanced it TOMBSTONES the private row — the F10 class;
+     line_convert_midseq_refuted / line_convert_vliw_refuted   the two known findings, as model witnesses.
+     line_convert_sound_script_partial   the whole-program simulation (see below): events = reader rows.
+   MISSING for the full statement: tombstone operands and the composition with C13's program_roundtrip_* (see the
+   comment at line_convert_sound_script_partial); whole programs are additionally decided by the oracle streams
+   c12.line / c12.vliw / c12.line5 and by the model stream c12.lineconv. *)
+Require GV.Spec.LineSpec GV.Model.LineRd GV.Model.LineWr GV.Model.ConvertLine GV.Proofs.LineRdMono
+        GV.Proofs.ConvertLineProofs GV.Proofs.ConvertLineSafe GV.Proofs.ConvertLineSim.
+
+Theorem line_convert_address_offset_exact : forall c,
+  match ConvertLine.convert_address_offset c with
+  | Ok a => a = LineRd.r_addr (ConvertLine.cl_row c) /\
+            (LineWr.le_min_len (LineWr.p_lenc (ConvertLine.cl_prog c)) <= 1 \/
+             a mod LineWr.le_min_len (LineWr.p_lenc (ConvertLine.cl_prog c)) = 0)
+  | Err e => e = CUnsupportedLineInstruction /\ 1 < LineWr.le_min_len (LineWr.p_lenc (ConvertLine.cl_prog c)) /\
+             LineRd.r_addr (ConvertLine.cl_row c) mod LineWr.le_min_len (LineWr.p_lenc (ConvertLine.cl_prog c)) <> 0
+  | _ => False
+  end.
+Proof. exact ConvertLineProofs.address_offset_exact. Qed.
+
+Theorem line_convert_error_or_exact : forall h c,
+  match ConvertLine.convert_row h c with
+  | Ok w => ConvertLineProofs.row_fields_verbatim (ConvertLine.cl_row c) w /\
+            nth_error (ConvertLine.cl_files c) (N.to_nat (LineRd.r_file (ConvertLine.cl_row c))) = Some (LineWr.w_file w) /\
+            (LineSpec.h_version h <= 4 -> LineRd.r_file (ConvertLine.cl_row c) <> 0) /\
+            (LineWr.le_min_len (LineWr.p_lenc (ConvertLine.cl_prog c)) <= 1 \/
+             LineWr.w_address_offset w mod LineWr.le_min_len (LineWr.p_lenc (ConvertLine.cl_prog c)) = 0)
+  | Err e => (e = CUnsupportedLineInstruction /\ 1 < LineWr.le_min_len (LineWr.p_lenc (ConvertLine.cl_prog c)) /\
+              LineRd.r_addr (ConvertLine.cl_row c) mod LineWr.le_min_len (LineWr.p_lenc (ConvertLine.cl_prog c)) <> 0) \/
+             (e = CInvalidFileIndex /\
+              (N.of_nat (length (ConvertLine.cl_files c)) <= LineRd.r_file (ConvertLine.cl_row c) \/
+               (LineRd.r_file (ConvertLine.cl_row c) = 0 /\ LineSpec.h_version h <= 4)))
+  | _ => False
+  end.
+Proof. exact ConvertLineProofs.convert_row_exact. Qed.
+
+Theorem line_convert_offset_exact : forall dbg h r i b r' x,
+  LineRdMono.hdr_ok h -> LineRd.r_tomb r = false -> b <= LineRd.r_addr r ->
+  (forall a, i <> LineSpec.ISetAddress a) ->
+  LineRd.execute dbg h r i = Ok (r', x) -> (forall e, x <> LineRd.XErr e) ->
+  LineRd.execute dbg h (ConvertLineProofs.rebase b r) i = Ok (ConvertLineProofs.rebase b r', x) /\
+  LineRd.r_tomb r' = false /\ b <= LineRd.r_addr r'.
+Proof. exact ConvertLineProofs.execute_rebase. Qed.
+
+Theorem line_convert_set_address_first : forall dbg h q,
+  LineRdMono.hdr_ok h -> LineRd.r_addr q = 0 ->
+  LineRd.execute dbg h q (LineSpec.ISetAddress 0) =
+    Ok (LineRd.set_opi (LineRd.set_addr (LineRd.set_tomb q false) 0) 0, LineRd.XNoRow).
+Proof. exact ConvertLineProofs.set_address_zero. Qed.
+
+Theorem line_convert_set_address_midseq : forall dbg h q,
+  0 < LineRd.r_addr q ->
+  LineRd.execute dbg h q (LineSpec.ISetAddress 0) = Ok (LineRd.set_tomb q true, LineRd.XNoRow).
+Proof. exact ConvertLineProofs.set_address_midseq. Qed.
+
+(* the hypotheses are met by real rows: C04's sample header, a row at 0x1010 seen from base 0x1000 *)
+Example line_convert_offset_exact_hyps :
+  LineRdMono.hdr_ok LineRdMono.sample_header /\
+  LineRd.execute true LineRdMono.sample_header
+    (LineRd.set_addr (LineRd.row_new LineRdMono.sample_header) 4112) (LineSpec.IAdvancePc 3) =
+    Ok (LineRd.set_addr (LineRd.row_new LineRdMono.sample_header) 4115, LineRd.XNoRow) /\
+  LineRd.execute true LineRdMono.sample_header
+    (ConvertLineProofs.rebase 4096 (LineRd.set_addr (LineRd.row_new LineRdMono.sample_header) 4112)) (LineSpec.IAdvancePc 3) =
+    Ok (LineRd.set_addr (LineRd.row_new LineRdMono.sample_header) 19, LineRd.XNoRow).
+Proof. split; [exact (proj1 LineRdMono.hdr_ok_examples)|]. vm_compute. split; reflexivity. Qed.
+
+(* line_convert_no_panic (both build modes, EVERY byte string as the program, every header that
+   LineProgramHeader::parse can return — C04's hdr_ok, see parse_header_hdr_ok —, INCLUDING VLIW headers):
+   a read_row call never panics and never runs out of fuel, keeps the private row inside the address size, and
+   every returned event strictly decreases the measure 2 * |remaining input| + state weight; hence the
+   whole-program iteration `while let Some(row) = convert.read_row()?` terminates within its fuel.
+   (The writer half of convert — generate_row / end_sequence — can panic exactly in the VLIW class: see
+   line_convert_vliw_refuted and C13's op_advance_overflow_refuted.) *)
+Theorem line_convert_no_panic : forall dbg be sx h c,
+  LineRdMono.hdr_ok h -> ConvertLineSafe.cl_ok h c ->
+  fst (ConvertLine.read_row dbg be sx h c) <> Panic /\
+  fst (ConvertLine.read_row dbg be sx h c) <> OutOfFuel /\
+  ConvertLineSafe.cl_ok h (snd (ConvertLine.read_row dbg be sx h c)) /\
+  (forall ev, fst (ConvertLine.read_row dbg be sx h c) = Ok (Some ev) ->
+     (ConvertLineSafe.measure (snd (ConvertLine.read_row dbg be sx h c)) < ConvertLineSafe.measure c)%nat).
+Proof. exact ConvertLineSafe.read_row_safe. Qed.
+
+Theorem line_convert_events_terminate : forall dbg be sx h c,
+  LineRdMono.hdr_ok h -> ConvertLineSafe.cl_ok h c ->
+  snd (fst (ConvertLine.events dbg be sx h c)) <> LineRd.SPanic /\
+  snd (fst (ConvertLine.events dbg be sx h c)) <> LineRd.SFuel.
+Proof. exact ConvertLineSafe.events_terminate. Qed.
+
+(* the state ConvertLineProgram::new returns satisfies the invariant (private row at offset 0, state ReadRow) *)
+Theorem line_convert_new_ok : forall dbg sx s ls c,
+  ConvertLine.cl_new dbg sx s ls = Ok c ->
+  ConvertLineSafe.cl_ok (ConvertLine.sh_h s) c /\ ConvertLine.cl_st c = ConvertLine.CSReadRow.
+Proof. exact ConvertLineSafe.cl_new_ok. Qed.
+
+(* a decoded DW_LNE_define_file entry converts to a new FileId or a specific error, never a panic *)
+Theorem line_convert_define_file_safe : forall dbg be h inp f rest sx dirs ls p,
+  LineRd.parse_insn dbg be h inp = Ok (LineSpec.IDefineFile f, rest) ->
+  match ConvertLine.convert_file sx (LineWr.p_enc p) dirs ls f with
+  | Ok (name, d, info, ls') => exists r, LineWr.add_file p name d info = Ok r
+  | Err _ => True
+  | _ => False
+  end.
+Proof.
+  intros dbg be h inp f rest sx dirs ls p H.
+  exact (ConvertLineSafe.define_file_safe sx dirs ls p f (ConvertLineSafe.parse_define_file dbg be h inp f rest H)).
+Qed.
+
+Example line_convert_no_panic_hyps : forall dbg,
+  LineRdMono.hdr_ok ConvertLineProofs.wit_vliw /\
+  exists c, ConvertLine.cl_new dbg ConvertLineProofs.wit_sx (ConvertLine.mk_src ConvertLineProofs.wit_vliw None None) [] = Ok c.
+Proof.
+  intros dbg. split.
+  - unfold LineRdMono.hdr_ok, LineRdMono.asz_ok. cbn. repeat split; discriminate.
+  - destruct dbg; vm_compute; eexists; reflexivity.
+Qed.
+
+(* line_convert_sound, SCRIPT LEVEL (Proofs/ConvertLineSim.v: a lock-step simulation between C04's
+   LineRows::next_row on the real row and ConvertLineProgram::read_row on its private row, every instruction, the
+   SetAddress / ConvertRow states, define_file, any bytes as the program).
+   For every header LineProgramHeader::parse can return (hdr_ok; VLIW headers included), both build modes, every
+   program outside the F10 class (known_midseq = false) whose DW_LNE_set_address operands are below the reader's
+   tombstone values (addrs_below: < 2^(8*address_size) - 2): IF the reader's rows() runs to the end and the
+   converter's `while let Some(row) = read_row()?` runs to the end, THEN the events are exactly the reader's rows
+   (ConvertLineSim.ev_match): erasing the SetAddress events, event k is row k; a Row event has
+   address = (last SetAddress of the sequence, 0 if none) + address_offset, op_index, line, column, discriminator,
+   is_stmt, basic_block, prologue_end, epilogue_begin, isa verbatim and file = files[file register] in the final
+   FileId table; an EndSequence event is the reader's end_sequence row at base + offset (for a sequence without any
+   row only its end_sequence flag is claimed: the converter swallows the pending address of an empty sequence).
+   With C13's meaning of a writer script (address = base + address_offset, other registers verbatim:
+   LineWrSeqProofs.meaning) this is "writer script meaning = reader rows".
+   _partial because two clauses are missing: (1) sequences whose DW_LNE_set_address operand IS a tombstone value
+   (-1: skipped by both sides; -2: skipped by the reader only — the converted program carries the same operand and is
+   skipped again when read back) are outside the hypothesis and decided by c12.lineconv / c12.line only;
+   (2) the last composition step rows(read(write(script))) = meaning(script) is C13's program_roundtrip_v2_v4 / _v5,
+   whose hypothesis script_ok (offsets monotone and aligned: provable from line_convert_no_panic's invariant and
+   line_convert_error_or_exact; operation advance < 2^64: the VLIW / C13 known findings) is not discharged here. *)
+Theorem line_convert_sound_script_partial : forall dbg be sx s ls c0 rs evs cf,
+  LineRdMono.hdr_ok (ConvertLine.sh_h s) ->
+  ConvertLine.known_midseq dbg be (ConvertLine.sh_h s) = false ->
+  ConvertLineSim.addrs_below (ConvertLineSim.mtomb (ConvertLine.sh_h s))
+    (fst (LineRd.insns_model dbg be (ConvertLine.sh_h s))) = true ->
+  ConvertLine.cl_new dbg sx s ls = Ok c0 ->
+  LineRd.rows_model dbg be (ConvertLine.sh_h s) = (rs, LineRd.SEnd) ->
+  ConvertLine.events dbg be sx (ConvertLine.sh_h s) c0 = (evs, LineRd.SEnd, cf) ->
+  ConvertLineSim.ev_match (ConvertLine.cl_files cf) 0 false evs rs.
+Proof. exact ConvertLineSim.convert_events_sound. Qed.
+
+(* the hypotheses are met by a two-sequence program (special opcodes, advance_pc, fixed_advance_pc, set_file; the
+   second sequence has no set_address): reader rows at 0x3001 0x3006 0x301b, end 0x301b, then 0, end 3; events
+   SetAddress 0x3000, Row +1 +6 +27, EndSequence 27, Row 0, EndSequence 3 *)
+Example line_convert_sound_script_hyps : forall dbg,
+  LineRdMono.hdr_ok ConvertLineSim.wit_plain /\
+  ConvertLine.known_midseq dbg true ConvertLineSim.wit_plain = false /\
+  ConvertLineSim.addrs_below (ConvertLineSim.mtomb ConvertLineSim.wit_plain)
+    (fst (LineRd.insns_model dbg true ConvertLineSim.wit_plain)) = true /\
+  ConvertLineSim.plain_summary dbg =
+    Some (LineRd.SEnd, [12289; 12294; 12315; 12315; 0; 3], LineRd.SEnd,
+          [(0, 12288); (1, 1); (1, 6); (1, 27); (2, 27); (1, 0); (2, 3)]).
+Proof. exact ConvertLineSim.plain_witness. Qed.
+
+(* the class predicate is exactly "outside F10 and below the tombstones" *)
+Theorem line_convert_plain_class : forall mt is moved,
+  ConvertLineSim.plain_scan mt is moved =
+  negb (ConvertLine.midseq_scan is moved) && ConvertLineSim.addrs_below mt is.
+Proof. exact ConvertLineSim.plain_scan_iff. Qed.
+
+(* the two known-finding classes (Model/ConvertLine.v known_midseq = the class of harness/src/c12.rs
+   midseq_set_address; known_vliw = maximum_operations_per_instruction > 1), with model witnesses *)
+Theorem line_convert_midseq_refuted : forall dbg,
+  ConvertLine.known_midseq dbg true ConvertLineProofs.wit_midseq = true /\
+  map LineRd.r_addr (fst (LineRd.rows_model dbg true ConvertLineProofs.wit_midseq)) = [12303; 14338] /\
+  snd (LineRd.rows_model dbg true ConvertLineProofs.wit_midseq) = LineRd.SEnd /\
+  ConvertLineProofs.wit_events dbg true ConvertLineProofs.wit_midseq =
+    Some ([ConvertLine.CRSetAddress 12288;
+           ConvertLine.CRRow (LineWr.mkWrow 15 0 0 5 0 0 true false false false 0);
+           ConvertLine.CREndSequence 15], LineRd.SEnd) /\
+  ConvertLineProofs.wit_convert dbg true ConvertLineProofs.wit_midseq =
+    Some (Ok [LineWr.ISetAddress (LineWr.AConst 12288); LineWr.ISpecial 232; LineWr.IEndSequence]).
+Proof. exact ConvertLineProofs.midseq_witness. Qed.
+
+Theorem line_convert_vliw_refuted :
+  ConvertLine.known_vliw ConvertLineProofs.wit_vliw = true /\
+  ConvertLine.known_midseq true false ConvertLineProofs.wit_vliw = false /\
+  ConvertLineProofs.wit_convert true false ConvertLineProofs.wit_vliw = Some Panic /\
+  ConvertLineProofs.wit_convert false false ConvertLineProofs.wit_vliw =
+    Some (Ok [LineWr.ISetAddress (LineWr.AConst 12288); LineWr.ISpecial 32;
+              LineWr.IAdvancePc 18446744073709551615; LineWr.ICopy; LineWr.IEndSequence]).
+Proof. exact ConvertLineProofs.vliw_witness. Qed.
+
 Check cfi_offset_exact_or_error. Check cfi_factored_offset_exact_or_error. Check cfi_factors_exact_or_error.
 Check cfi_advance_exact_or_error. Check cfi_insn_convert_sound. Check cfi_insn_convert_each.
 Check cfi_convert_write_read_sound. Check cfi_normal_form_cie. Check cfi_normal_form_fde.
@@ -556,3 +761,9 @@ Check expr_converted_well_typed. Check expr_fuel_suffices. Check expr_normal_for
 Check range_convert_sound. Check loc_convert_sound. Check list_normal_form_v5. Check list_normal_form_v4.
 Check attr_convert_sound. Check attr_file_index_rule. Check attr_file_index_written. Check attr_implicit_const.
 Check attr_flag_present. Check attr_dwo_id_normal_form.
+Check line_convert_address_offset_exact. Check line_convert_error_or_exact. Check line_convert_offset_exact.
+Check line_convert_set_address_first. Check line_convert_set_address_midseq.
+Check line_convert_midseq_refuted. Check line_convert_vliw_refuted.
+Check line_convert_no_panic. Check line_convert_events_terminate. Check line_convert_new_ok.
+Check line_convert_define_file_safe.
+Check line_convert_sound_script_partial. Check line_convert_plain_class.
